@@ -60,18 +60,25 @@ static Tissue make_tissue(Rng& g, int max_cells, bool no_epi_pairs = false, bool
         if (g.coin(0.7)) gen::jitter(m, g, 0.04); gen::rotate(m, gen::rot_random(g)); gen::scale(m, r, r, r); gen::translate(m, x, y, z); return m; };
     bool have_epi = false;
     auto rcls = [&]() { double u = g.uni(); int c = u < 0.4 ? 0 : u < 0.55 ? 1 : u < 0.7 ? 2 : u < 0.85 ? 3 : 4; if (no_epi_pairs && c == 0) { if (have_epi) c = 2; have_epi = true; } return c; };
-    if (fam <= 2) { t.family = "cluster"; int n = dense ? max_cells : g.range(2, max_cells); double spread = std::cbrt((double)n) * (dense ? g.uni(0.45, 0.6) : g.uni(0.7, 1.3));
+    // two epithelial boxes on exact coordinates facing each other across a thin gap, the second shifted by half a lattice step: every node of one face is bitwise
+    // equidistant from two nodes of the other (within the adhesion cut-off) while the third node of those faces lies beyond it
+    const bool facing = !no_epi_pairs && !dense && g.coin(0.08);
+    if (facing) { t.family = "facing_lattice_boxes"; const int n = 8; const double h = 2.0 / n, gap = 0.2 * h;
+        gen::TriMesh A = gen::box(n, 1, 1, 1), B = gen::box(n, 1, 1, 1); gen::translate(B, 2 + gap, h / 2, g.coin() ? h / 2 : 0.0); if (g.coin()) gen::permute(B, g);
+        add(A, 0); add(B, 0); lmin = h / 2; ca = 0.8 * h; cr = g.coin() ? 0.3 * h : 0.8 * h; t.P.min_edge_len_ = lmin; t.P.contact_cutoff_adhesion_ = ca; t.P.contact_cutoff_repulsion_ = cr; }
+    else if (fam <= 2) { t.family = "cluster"; int n = dense ? max_cells : g.range(2, max_cells); double spread = std::cbrt((double)n) * (dense ? g.uni(0.45, 0.6) : g.uni(0.7, 1.3));
         for (int k = 0; k < n; k++) add(blob(g.uni(0.4, 0.8), g.uni(-spread, spread), g.uni(-spread, spread), g.uni(-spread, spread)), rcls()); }
     else if (fam == 3) { t.family = "nucleus_in_cell"; gen::TriMesh outer = gen::icosphere(g.range(2, 3)); gen::scale(outer, 1, 1, 1); add(outer, 0); double r = g.uni(0.4, 0.95); add(blob(r, g.uni(-0.1, 0.1) * (1 - r), 0, 0), 3); if (g.coin()) add(blob(0.6, 1.6 + g.uni(-0.2, 0.2), 0, 0), rcls()); }
     else if (fam == 4) { t.family = "cell_in_ecm"; gen::TriMesh bx = gen::box(g.range(2, 5), 1, 1, 1); add(bx, 1); double r = g.uni(0.5, 1.05); add(blob(r, g.uni(-0.1, 0.1), g.uni(-0.1, 0.1), 0), 0); if (g.coin()) add(blob(0.5, g.uni(-0.4, 0.4), g.uni(-0.4, 0.4), g.uni(-0.4, 0.4)), 0); }
     else { t.family = "row_touching"; int n = g.range(2, max_cells); double x = 0; for (int k = 0; k < n; k++) { double r = g.uni(0.4, 0.7); x += r; add(blob(r, x, g.uni(-0.1, 0.1), g.uni(-0.1, 0.1)), rcls()); x += r + g.uni(-0.15, 0.2) * r; } }
     // position relative to the origin: far from / straddling / exact multiples of the voxel size
     double voxel = 3 * lmin + 2 * std::max(ca, cr); int om = g.range(0, 3); V3 off;
+    if (facing) om = 0;   // the exact coordinates stay as they are
     if (om == 1) off = V3(g.uni(-1, 1), g.uni(-1, 1), g.uni(-1, 1)) * (g.coin(0.5) ? g.logu(10, 1e4) : g.logu(1e4, 3e6)); else if (om == 2) off = V3(voxel * g.range(-50, 50), voxel * g.range(-50, 50), voxel * g.range(-50, 50)); else if (om == 3) off = V3(-0.5, 0.3, 0.1);
     t.offset = (double)off.norm();
     for (auto& m : t.meshes) gen::translate(m, (double)off.x, (double)off.y, (double)off.z);
     // a few nodes exactly on voxel boundaries of the grid anchored at the (unknown to us) tissue minimum: snap coordinates to multiples of voxel/2
-    if (g.coin(0.3)) for (auto& m : t.meshes) for (auto& p : m.P) if (g.coin(0.05)) { int d = g.range(0, 2); p[d] = std::round(p[d] / (voxel / 2)) * (voxel / 2); }
+    if (g.coin(0.3) && !facing) for (auto& m : t.meshes) for (auto& p : m.P) if (g.coin(0.05)) { int d = g.range(0, 2); p[d] = std::round(p[d] / (voxel / 2)) * (voxel / 2); }
     // cell types: one per class present
     std::map<int, int> idx; for (int c : t.cls) if (!idx.count(c)) { idx[c] = (int)t.types.size(); t.types.push_back(ctype(c, g, t.uniform_strengths)); }
     for (int c : t.cls) t.type_of.push_back(idx[c]);
